@@ -1548,10 +1548,11 @@ namespace awkward {
       regularlength);
     util::handle_error(err, classname(), identities_.get());
 
-    ContentPtr down = content_.get()->getitem_next_jagged(multistarts,
-                                                          multistops,
-                                                          jagged.content(),
-                                                          tail);
+    ContentPtr trimmed = content_.get()->getitem_range_nowrap(0, regularlength*size_);
+    ContentPtr down = trimmed.get()->getitem_next_jagged(multistarts,
+                                                         multistops,
+                                                         jagged.content(),
+                                                         tail);
 
     return std::make_shared<RegularArray>(Identities::none(),
                                           util::Parameters(),
